@@ -117,7 +117,7 @@ theorem setQD_law {s : Part} (hI : Inv s) {t : Int} (ht : 0 ≤ t) (q : Nat) :
         = s.points.map (fun p => (p.t, p.prev, p.next, p.starting, p.ending))
     ∧ Inv (setQD s t q) := by
   have hg := (good_iff_inv s).mpr hI
-  have r := setQD_result hg.1 ht q
+  have r := setQD_result hg.1.toQCore ht q
   exact ⟨r.law, r.objs, r.requested, r.same, (good_iff_inv _).mp (setQD_good hg ht q)⟩
 
 /-- `quarter_durations(a, b)` returns the stored changes with `a ≤ time < b`, in table order -/
